@@ -67,8 +67,10 @@ fn run_case(rec: &mut Rec, d: &Value) {
         return run_long(rec, d);
     }
     assert_eq!(d["k"].as_str(), Some("line"), "unknown case kind {}", d["k"]);
-    // optional stroke alignment (0 inside, 2 outside; it is documented as ignored for lines)
+    // optional stroke alignment (0 inside, 2 outside; it is documented as ignored for lines) and optional dotted stroke
+    // style (documented: only implemented for rectangles, every other primitive uses the solid default)
     let al = d["al"].as_i64().unwrap_or(1);
+    let dot = d["dot"].as_i64() == Some(1);
     let (s, e) = (pt_from(&d["s"]), pt_from(&d["e"]));
     let ws: Vec<u32> = d["ws"].as_array().unwrap().iter().map(|w| i(w) as u32).collect();
     rec.begin(d.clone());
@@ -78,7 +80,13 @@ fn run_case(rec: &mut Rec, d: &Value) {
         let (pts, pdone) = pull(line.points(), m + 66);
         let mut strokes = vec![];
         for &w in &ws {
-            let style = if al == 1 {
+            let style = if dot {
+                embedded_graphics::primitives::PrimitiveStyleBuilder::new()
+                    .stroke_color(BinaryColor::On)
+                    .stroke_width(w)
+                    .stroke_style(embedded_graphics::primitives::StrokeStyle::Dotted)
+                    .build()
+            } else if al == 1 {
                 PrimitiveStyle::with_stroke(BinaryColor::On, w)
             } else {
                 embedded_graphics::primitives::PrimitiveStyleBuilder::new()
@@ -99,7 +107,13 @@ fn run_case(rec: &mut Rec, d: &Value) {
             } else {
                 (vec![], -1)
             };
-            strokes.push(json!([w, pts_json(seq), sdone as i32, dm, dw]));
+            // the same pixel sequence through count / last / nth / size_hint and after a few next() calls
+            let proto = if sdone && px.len() <= 3000 {
+                iter_protocol_with(|| styled.pixels(), 1 + (px.len() % 4), |Pixel(p, _)| *p)
+            } else {
+                json!({})
+            };
+            strokes.push(json!([w, pts_json(seq), sdone as i32, dm, dw, proto]));
         }
         (pts, pdone, strokes)
     });
@@ -165,6 +179,8 @@ fn main() {
         // a third of the medium lines with a non-default stroke alignment (must make no difference)
         if k % 3 != 0 {
             d["al"] = json!(if k % 3 == 1 { 0 } else { 2 });
+        } else if k % 2 == 0 {
+            d["dot"] = json!(1);
         }
         run_case(&mut rec, &d);
     }
